@@ -69,6 +69,8 @@ class C09(Prop):
                                   rng.choice([None, None, 'x'])))
             # groupcountdistinctvalues: per key, the number of distinct values (judged on the implementation's output)
             yield Case('gcdv', (hdr[0], hdr[1], t))
+            rag = (hdr,) + tuple(r if rng.random() < 0.6 else r[:rng.choice([0, 1])] for r in rows)
+            yield Case('vcm', (rng.choice([hdr[1], hdr[-1]]), rng.choice(['M', 'NA', None]), rag))
             yield Case('reduce', ('fold', False, bs, t, key, zoo.fn(rng.choice([0, 1])), rng.choice([val, val, None])))
             yield Case('reduce', ('valuecounts', False, None, t, rng.choice([(hdr[0],), (hdr[0], hdr[1])]), None))
 
@@ -76,6 +78,8 @@ class C09(Prop):
         import petl as etl
         if case.op == 'const_true':
             try:
+                if case.arg and case.arg[0] == 'vcm':
+                    return codec.t_bool(self._vcm(*case.arg[1:]))
                 return codec.t_bool(self._gcdv(*case.arg))
             except Exception as e:   # noqa
                 return obs_exc(e)
@@ -123,7 +127,25 @@ class C09(Prop):
     def expand(self, case):
         if case.op == 'gcdv':
             return Case('const_true', case.arg, dict(case.meta, orig='gcdv'))
+        if case.op == 'vcm':
+            return Case('const_true', ('vcm',) + tuple(case.arg), dict(case.meta, orig='vcm'))
         return case
+
+    def _vcm(self, field, missing, t):
+        """valuecounts(table, field, missing=m): short rows count under m; counts sum to the number of rows"""
+        import petl as etl
+        i = t[0].index(field)
+        vals = [r[i] if i < len(r) else missing for r in t[1:]]
+        want = {}
+        for v in vals:
+            want[v] = want.get(v, 0) + 1
+        got = list(etl.valuecounts([list(r) for r in t], field, missing=missing))
+        if tuple(got[0]) != (field, 'count', 'frequency'):
+            return False
+        d = {}
+        for r in got[1:]:
+            d[r[0]] = d.get(r[0], 0) + r[1]
+        return d == want and sum(r[1] for r in got[1:]) == len(t) - 1
 
     def _gcdv(self, key, value, t):
         import petl as etl
@@ -151,6 +173,9 @@ class C09(Prop):
     def valid(self, case):
         if case.op == 'const_true':
             try:
+                if case.arg[0] == 'vcm':
+                    _, field, missing, t = case.arg
+                    return len(t) >= 1 and field in t[0] and len(set(t[0])) == len(t[0])
                 key, value, t = case.arg
                 return len(t) >= 1 and key in t[0] and value in t[0] and all(len(r) == len(t[0]) for r in t[1:])
             except Exception:
